@@ -26,6 +26,10 @@ import traceback
 
 ROOT = os.path.dirname(os.path.dirname(os.path.dirname(os.path.abspath(__file__))))
 EVIDENCE_DIR = os.path.join(ROOT, 'evidence')
+if os.path.abspath(os.environ.get('VERIF_REPO', '/repo')) != '/repo':
+    # a run against another tree (tools/eval_mutant.py, tools/qm.sh) must not overwrite the evidence about /repo
+    EVIDENCE_DIR = os.path.join(ROOT, '.work', 'evidence-other-tree')
+    os.makedirs(EVIDENCE_DIR, exist_ok=True)
 REPLAY_DIR = os.path.join(ROOT, 'replay')
 FINDINGS_FILE = os.path.join(ROOT, 'known_findings.json')
 WORK_DIR = os.path.join(ROOT, '.work')
